@@ -201,7 +201,9 @@ def lambda_text(draw):
         "k", "{x} + k", "h({x}) * 2", "[i + k for i in range(3)][{x} % 3]", "(lambda z: z + 1)({x}) + k",
         "{x} if {x} > 1 else k", "max({x}, k)", "({x},\n     k)[1]", "{x} + (k\n  + 1)",
         "{x} +\n     k", "{x} +  # a comment inside the lambda\n     k",
-        "len(\"\"\"ab\n        cd\"\"\") + {x}", "({x} +  # comment\n k)"]))
+        "len(\"\"\"ab\n        cd\"\"\") + {x}", "({x} +  # comment\n k)",
+        # the continuation line starts in column 0 and could start a statement of its own
+        "{x} * 2\n+ k", "{x}\n- k"]))
     body = body.format(x=params[0] if params else "1")
     if "\n" in body:
         feats.add("multiline")
